@@ -85,7 +85,11 @@ class ECP5PLL(LiteXModule):
                         config["clkfb"] = None
                         for n, (clk, f, p, m, dpa) in sorted(self.clkouts.items()):
                             valid = False
-                            for d in range(*self.clko_div_range):
+                            divs  = list(range(*self.clko_div_range))
+                            if (self.nclkouts == self.nclkouts_max) and (config["clkfb"] is None):
+                                # No spare output: the feedback has to come from one of the outputs, try its divider first.
+                                divs = [clkofb_div] + divs
+                            for d in divs:
                                 clk_freq = vco_freq/d
                                 # If output is valid, save config.
                                 if abs(clk_freq - f) <= f*m:
